@@ -77,6 +77,13 @@ PID = "C15"
 # not fail the check (it is counted in coverage['pending_findings_seen']); once the signature is
 # registered as a known finding it prints as KNOWN-FINDING and can be dropped from this list.
 PENDING_FINDINGS = [
+    # ZipFS(f, write=True, compression=ZIP_DEFLATED|ZIP_BZIP2|ZIP_LZMA, temp_fs='mem://') and
+    # fs.compress.write_zip(MemoryFS, f, compression=...): every file is ZIP_STORED.  write_zip passes a fresh
+    # zipfile.ZipInfo (compress_type ZIP_STORED) to ZipFile.writestr for sources without a syspath.
+    "keywords zip: files are stored uncompressed although a compression was requested [memory source]",
+    # WriteZipFS.write_zip(file, compression=zipfile.ZIP_STORED) on a ZipFS created with the default
+    # ZIP_DEFLATED writes deflated members: `compression or self.compression` treats ZIP_STORED (0) as "not given".
+    "keywords zip: files are compressed with another method than the requested one [method, host source]",
 ]
 LOCAL_KNOWN = os.path.join(os.path.dirname(os.path.abspath(__file__)), "c15_known_local.json")
 
@@ -436,9 +443,15 @@ def roundtrip_signature(case, fails):
         kw = case["kw"]
         if all(f["kind"] == "compression" for f in fails):
             d = fails[0]["detail"]
-            return "keywords %s: archive written with compression %s where %s was requested [%s, %s source]" % (
-                fam, d["got"], d["want"], fails[0]["archive"],
-                "memory" if kw["args"].get("temp_fs", kw["base_temp"]) in MEM_TEMPS else "host")
+            src = "memory" if kw["args"].get("temp_fs", kw["base_temp"]) in MEM_TEMPS else "host"
+            if fam == "tar":
+                return "keywords tar: archive compression differs from the one requested or implied by the file " \
+                       "name [%s]" % fails[0]["archive"]
+            if d["got"] == [zipfile.ZIP_STORED]:
+                return "keywords zip: files are stored uncompressed although a compression was requested " \
+                       "[%s source]" % src
+            return "keywords zip: files are compressed with another method than the requested one [%s, %s source]" % (
+                fails[0]["archive"], src)
         fails = [f for f in fails if f["kind"] != "compression"]
         given = sorted(kw["args"]) + ["read:" + k for k in sorted(kw["read_args"]) if k not in kw["args"]]
         fam = "%s %s(%s)" % (fam, kw["api"], ",".join(given))
@@ -472,7 +485,8 @@ def roundtrip_signature(case, fails):
 
 # --------------------------------------------------------------------------- keyword arguments
 
-ENCODINGS = ["utf-8", "utf8", "UTF-8", "latin-1", "cp437", "CP437", "ascii", "cp1252", "utf-16", "shift_jis"]
+ENCODINGS = ["utf-8", "latin-1", "cp437", "ascii", "cp1252", "utf-16", "shift_jis"]
+ENCODINGS_THOROUGH = ENCODINGS + ["utf8", "UTF-8", "CP437", "iso-8859-15", "koi8-r", "utf-32", "cp932"]
 ZIP_COMPRESSIONS = [zipfile.ZIP_STORED, zipfile.ZIP_DEFLATED, zipfile.ZIP_BZIP2, zipfile.ZIP_LZMA]
 TAR_COMPRESSIONS = [None, "gz", "bz2", "xz"]
 TEMP_SPECS = ["url:temp://", "url:mem://", "url:temp://__archivetemp__", "url:osfs", "inst:TempFS", "inst:MemoryFS"]
@@ -522,20 +536,23 @@ def encodable(name, encoding):
         return False
 
 
-def kw_tree(encoding, strict, long_component):
+def kw_tree(encoding, strict, long_component, small=False):
     """The name tree for a filename encoding: every pool name (strict: every name the encoding can
     express) as a file or as a directory with a child and an empty directory, and a chain of long
     directory names down to a path of more than 255 characters."""
     ok = (lambda n: encodable(n, encoding)) if strict else (lambda n: True)
-    names = [n for n in KW_POOL + (KW_LONG_COMPONENT if long_component else []) if ok(n)]
+    pool = KW_POOL[1::3] if small else KW_POOL       # small: one name of each kind
+    names = [n for n in pool + (KW_LONG_COMPONENT if long_component else []) if ok(n)]
     nodes = []
     for i, n in enumerate(names):
         t = 1000000000 + 3 * i
         if i % 2:
             nodes.append(dict(n=n, t=t, size=(i * 37) % 300, seed=i))
         else:
-            nodes.append(dict(n=n, t=t, d=[dict(n=names[(i + 1) % len(names)], t=t + 1, size=i % 4, seed=i),
-                                           dict(n=names[(i + 2) % len(names)], t=t + 2, d=[])]))
+            sub = [dict(n=names[(i + 1) % len(names)], t=t + 1, size=i % 4, seed=i)]
+            if i % 4 == 0:
+                sub.append(dict(n=names[(i + 2) % len(names)], t=t + 2, d=[]))
+            nodes.append(dict(n=n, t=t, d=sub))
     mid = u"é" * 90 if ok(u"é") else u"m" * 90
     leaf = u"deep-ü.txt" if ok(u"ü") else u"deep.txt"
     nodes.append(dict(n=u"A" * 90, t=1000000501, d=[dict(n=mid, t=1000000502, d=[dict(n=u"C" * 90, t=1000000503, d=[
@@ -563,8 +580,10 @@ def kw_params(func):
             if p.default is not p.empty and p.kind in (p.POSITIONAL_OR_KEYWORD, p.KEYWORD_ONLY)]
 
 
-def kw_values(fam, param):
+def kw_values(fam, param, thorough=False):
     v = KW_VALUES.get(param)
+    if param == "encoding" and thorough:
+        return ENCODINGS_THOROUGH
     if isinstance(v, dict):
         v = v[fam]
     return v
@@ -574,7 +593,8 @@ def kw_default(fam, api, param):
     return dict(kw_params(kw_surface(fam)[api]))[param]
 
 
-def kw_case(rnd, fam, api, args, read="ctor", read_args=None, lenient=False, target=None, ext=None, base_temp=None):
+def kw_case(rnd, fam, api, args, read="ctor", read_args=None, lenient=False, target=None, ext=None, base_temp=None,
+            small=False):
     """A keyword case.  args: the keyword arguments of the write-side call (JSON-able specs);
     read / read_args: how the archive is reopened."""
     args = dict(args)
@@ -585,6 +605,8 @@ def kw_case(rnd, fam, api, args, read="ctor", read_args=None, lenient=False, tar
         ext = ".zip" if fam == "zip" else rnd.choice(TAR_EXTS)[0]
     if base_temp is None:
         base_temp = rnd.choice(["default", "mem"])      # the temp_fs / source when it is not the swept parameter
+    if api == "opener":
+        base_temp = "default"                           # the openers offer no way to choose it
     temp = args.get("temp_fs", base_temp)
     enc = args.get("encoding", (read_args or {}).get("encoding", "utf-8"))
     rargs = dict(read_args or {})
@@ -592,7 +614,7 @@ def kw_case(rnd, fam, api, args, read="ctor", read_args=None, lenient=False, tar
         rargs.setdefault("encoding", args["encoding"])
     kw = dict(fam=fam, api=api, args=args, read=read, read_args=rargs, target=target, ext=ext, base_temp=base_temp,
               lenient=bool(lenient))
-    return dict(kw=kw, fmt=fam, tz=None, tree=kw_tree(enc, not lenient, temp in MEM_TEMPS))
+    return dict(kw=kw, fmt=fam, tz=None, tree=kw_tree(enc, not lenient, temp in MEM_TEMPS, small))
 
 
 def explore_kw(rnd, thorough):
@@ -606,13 +628,18 @@ def explore_kw(rnd, thorough):
 
         def add(api, args, **more):
             encs = [v for k, v in list(args.items()) + list(more.get("read_args", {}).items()) if k == "encoding"]
+            # quick: the whole name pool where the filename encoding is the swept parameter, one name of each
+            # kind (non-ASCII, > 100 characters, odd, path > 255) elsewhere
+            more.setdefault("small", not thorough and not encs)
             cases.append(kw_case(rnd, fam, api, args, **more))
-            if encs and any(not encodable(n, encs[0]) for n in KW_POOL):
+            # the whole pool, names the encoding cannot express included (quick: on the two main write routes)
+            if encs and any(not encodable(n, encs[0]) for n in KW_POOL) and \
+                    (thorough or ("encoding" in args and api in ("ctor", "compress"))):
                 cases.append(kw_case(rnd, fam, api, args, lenient=True, **more))
         for api in KW_WRITE_APIS:
             add(api, {}, read=rnd.choice(["ctor", "cls"]))
             for param, _default in kw_params(surf[api]):
-                vals = kw_values(fam, param)
+                vals = kw_values(fam, param, thorough)
                 if vals is None:
                     unmodelled.append("%s %s(%s)" % (fam, api, param))
                     continue
@@ -624,7 +651,7 @@ def explore_kw(rnd, thorough):
         for api in KW_READ_APIS:
             rd = api[5:]
             for param, _default in kw_params(surf[api]):
-                vals = kw_values(fam, param)
+                vals = kw_values(fam, param, thorough)
                 if vals is None:
                     unmodelled.append("%s %s(%s)" % (fam, api, param))
                     continue
@@ -639,7 +666,8 @@ def explore_kw(rnd, thorough):
                 for target in ("path", "filehandle"):
                     for api in ("ctor", "opener"):
                         if api == "ctor" or target == "path":
-                            cases.append(kw_case(rnd, fam, api, {}, read=rnd.choice(["ctor", "cls"]), target=target, ext=ext))
+                            cases.append(kw_case(rnd, fam, api, {}, read=rnd.choice(["ctor", "cls"]), target=target, ext=ext,
+                                                 small=not thorough))
         if thorough:
             for api in ("ctor", "cls", "compress"):
                 names = [p for p, _d in kw_params(surf[api]) if kw_values(fam, p) not in (None, "fixed")]
@@ -648,7 +676,7 @@ def explore_kw(rnd, thorough):
                     if i == len(names):
                         add(api, dict(acc), read=rnd.choice(["ctor", "cls"]))
                         return
-                    for v in kw_values(fam, names[i]):
+                    for v in kw_values(fam, names[i], False):
                         product(i + 1, acc + [(names[i], v)])
                 product(0, [])
     return cases, unmodelled, swept
@@ -830,15 +858,22 @@ def run_kw(case, ref, exp, workdir):
             return [dict(kind="exception", path="<write>", detail=common.exc_name(e) + ": " + str(e)[:200])]
         KW_STATS[key + ": written"] = KW_STATS.get(key + ": written", 0) + 1
         fails = []
+        # opener documentation: an existing archive cannot be opened writeable (NotWriteable)
+        refuse = kw["read"] == "opener" and kw["read_args"].get("writeable") and not kw["read_args"].get("create")
         for label, tgt, want in outs:
             try:
                 ro = open_readonly(case, tgt, workdir, made)
             except Exception as e:  # noqa
+                if refuse and common.exc_name(e) == "err:NotWriteable":
+                    continue
                 fails.append(dict(kind="exception", path="<open>", detail=common.exc_name(e) + ": " + str(e)[:200],
                                   archive=label))
                 continue
             try:
                 sub = compare(ro, exp, case["fmt"])
+                if refuse:
+                    sub.append(dict(kind="exception", path="<open>", detail="no-error: writeable=True opened an "
+                                                                            "existing archive"))
             finally:
                 ro.close()
             if want != "any":
@@ -1332,7 +1367,9 @@ def explore(tier, seed):
     for t in TEMPS:
         for r in ROUTES:
             timecases.append(dict(tree=tar_tree, fmt="tar", temp=t, target="bytesio", route=r, tz=ALT_TZ))
-            timecases.append(dict(tree=zip_tree, fmt="zip-stored", temp=t, target="bytesio", route=r, tz=ALT_TZ))
+            # (the last day of 2107 left out: the known local-time defect of the stat route would push it to 2108)
+            timecases.append(dict(tree=time_tree([x for x in ZIP_TIMES if x < T2107_LAST - 86400]), fmt="zip-stored",
+                                  temp=t, target="bytesio", route=r, tz=ALT_TZ))
     roundtrips += timecases
     # a non-UTC zone: same expectations (true epoch at the format's resolution)
     for tree in trees[3:4] + trees[7:7 + (12 if thorough else 3)]:
